@@ -107,6 +107,9 @@ func scanResidual(dir string) string {
 		if err != nil {
 			continue
 		}
+		if strings.Contains(string(b), "//go:build !go1.") {
+			continue // excluded by its build constraint under the toolchains in use: never compiled
+		}
 		for i, line := range strings.Split(string(b), "\n") {
 			t := strings.TrimSpace(line)
 			if strings.HasPrefix(t, "//") {
